@@ -8,7 +8,7 @@
    point-lookup range test are the functions translated on this run from
    federated_data.py, in_memory_federated_data.py and sqlite_federated_data.py (gen/).
    `spec_run` is the abstract view: ranges and subsets requested, the two chains. *)
-From Coq Require Import ZArith NArith List Bool.
+From Coq Require Import ZArith NArith List Bool Permutation.
 From FV Require Import Common.Bytes Model.C08_Model Proofs.C08_Proofs.
 Import ListNotations.
 Local Open Scope Z_scope.
@@ -95,6 +95,17 @@ Theorem C08_get_clients_request_order : forall (ds : list (bytes * list Z)), NoD
        fd_gets d (pre ++ i :: post) = (map (fun j => (j, g j)) pre, EKey)).
 Proof. exact get_clients_request_order. Qed.
 
+(* the iteration order of the in-memory dict / of a python set is unobservable: two tables that
+   are permutations of one another answer every query identically and slice to the SAME table *)
+Theorem C08_mem_dict_order_irrelevant : forall tbl tbl' cs bs,
+  NoDup (map fst tbl) -> Permutation tbl tbl' ->
+  let d := Mem tbl cs bs in let d' := Mem tbl' cs bs in
+  fd_num d = fd_num d' /\ fd_ids d = fd_ids d' /\ fd_sizes d = fd_sizes d' /\ fd_clients d = fd_clients d' /\
+  (forall i, fd_size d i = fd_size d' i /\ fd_get d i = fd_get d' i) /\
+  (forall req, fd_gets d req = fd_gets d' req) /\
+  (forall s e, fd_slice d s e = fd_slice d' s e).
+Proof. exact mem_dict_order_irrelevant. Qed.
+
 (* the order of ids (python bytes = SQLite BLOB order) is total; prefixes and trailing zero bytes *)
 Theorem C08_bytes_order_total :
   (forall a b, bleb a b = true \/ bleb b a = true) /\
@@ -138,4 +149,5 @@ Print Assumptions C08_preprocess_order.
 Print Assumptions C08_chain_append.
 Print Assumptions C08_derive_is_persistent.
 Print Assumptions C08_get_clients_request_order.
+Print Assumptions C08_mem_dict_order_irrelevant.
 Print Assumptions C08_bytes_order_total.
